@@ -1,3 +1,280 @@
+// vhelper is the program the harness uses AS step / inspection command: it
+// produces planned output, exit statuses and file-system effects, and it
+// records what it saw (directory snapshots) in a log outside the tree, so that
+// the monitors know what really happened without modelling the library.
 package main
 
-func main() {}
+import (
+	"crypto/sha256"
+	"encoding/hex"
+	"encoding/json"
+	"fmt"
+	"os"
+	"path/filepath"
+	"sort"
+	"strconv"
+	"strings"
+	"syscall"
+	"time"
+)
+
+func main() {
+	if len(os.Args) < 2 {
+		os.Exit(64)
+	}
+	switch os.Args[1] {
+	case "touch":
+		for _, p := range os.Args[2:] {
+			f, err := os.OpenFile(p, os.O_CREATE|os.O_WRONLY|os.O_APPEND, 0644)
+			if err != nil {
+				fmt.Fprintln(os.Stderr, err)
+				os.Exit(3)
+			}
+			fmt.Fprintf(f, "%d\n", time.Now().UnixNano())
+			f.Close()
+		}
+	case "emit":
+		emit(os.Args[2:])
+	case "inspect":
+		inspect(os.Args[2:])
+	case "fsop":
+		fsop(os.Args[2:])
+	case "sleep":
+		ms, _ := strconv.Atoi(os.Args[2])
+		time.Sleep(time.Duration(ms) * time.Millisecond)
+	case "exit":
+		k, _ := strconv.Atoi(os.Args[2])
+		os.Exit(k)
+	default:
+		os.Exit(64)
+	}
+}
+
+// Stream returns n deterministic bytes of stream `which` for the seed, starting
+// at offset off. Printable ASCII with newlines (mode "text") or all byte values.
+func Stream(seed uint64, which byte, off, n int, binary bool) []byte {
+	out := make([]byte, n)
+	for i := 0; i < n; i++ {
+		pos := uint64(off + i)
+		x := (seed*0x9E3779B97F4A7C15 + uint64(which)*0xBF58476D1CE4E5B9) ^ (pos * 0x94D049BB133111EB)
+		x ^= x >> 31
+		x *= 0xD6E8FEB86659FD93
+		x ^= x >> 29
+		if binary {
+			out[i] = byte(x)
+		} else {
+			v := byte(x % 97)
+			switch {
+			case v < 95:
+				out[i] = 32 + v
+			case v == 95:
+				out[i] = '\n'
+			default:
+				out[i] = '\t'
+			}
+		}
+	}
+	return out
+}
+
+// emit --seed S [--binary] --plan o:10,e:70000,co,e:5 [--exit K | --kill SIG]
+func emit(args []string) {
+	var seed uint64
+	var plan string
+	binary := false
+	exit := 0
+	kill := 0
+	for i := 0; i < len(args); i++ {
+		switch args[i] {
+		case "--seed":
+			i++
+			seed, _ = strconv.ParseUint(args[i], 10, 64)
+		case "--plan":
+			i++
+			plan = args[i]
+		case "--binary":
+			binary = true
+		case "--exit":
+			i++
+			exit, _ = strconv.Atoi(args[i])
+		case "--kill":
+			i++
+			kill, _ = strconv.Atoi(args[i])
+		}
+	}
+	offO, offE := 0, 0
+	for _, step := range strings.Split(plan, ",") {
+		if step == "" {
+			continue
+		}
+		switch {
+		case step == "co":
+			os.Stdout.Close()
+		case step == "ce":
+			os.Stderr.Close()
+		case strings.HasPrefix(step, "o:"):
+			n, _ := strconv.Atoi(step[2:])
+			writeAll(os.Stdout, Stream(seed, 'o', offO, n, binary))
+			offO += n
+		case strings.HasPrefix(step, "e:"):
+			n, _ := strconv.Atoi(step[2:])
+			writeAll(os.Stderr, Stream(seed, 'e', offE, n, binary))
+			offE += n
+		case strings.HasPrefix(step, "s:"):
+			ms, _ := strconv.Atoi(step[2:])
+			time.Sleep(time.Duration(ms) * time.Millisecond)
+		}
+	}
+	if kill != 0 {
+		syscall.Kill(os.Getpid(), syscall.Signal(kill))
+		time.Sleep(5 * time.Second)
+	}
+	os.Exit(exit)
+}
+
+func writeAll(f *os.File, b []byte) {
+	for len(b) > 0 {
+		n, err := f.Write(b)
+		if err != nil {
+			os.Exit(97)
+		}
+		b = b[n:]
+	}
+}
+
+func snapshot(dir string) map[string]string {
+	out := map[string]string{}
+	filepath.Walk(dir, func(p string, info os.FileInfo, err error) error {
+		if err != nil || info.IsDir() {
+			return nil
+		}
+		rel, _ := filepath.Rel(dir, p)
+		if info.Mode()&os.ModeSymlink != 0 {
+			t, _ := os.Readlink(p)
+			out[filepath.ToSlash(rel)] = "symlink:" + t
+			return nil
+		}
+		b, err := os.ReadFile(p)
+		if err != nil {
+			out[filepath.ToSlash(rel)] = "unreadable"
+			return nil
+		}
+		s := sha256.Sum256(b)
+		out[filepath.ToSlash(rel)] = hex.EncodeToString(s[:])
+		return nil
+	})
+	return out
+}
+
+func appendLog(path string, v any) {
+	b, _ := json.Marshal(v)
+	f, err := os.OpenFile(path, os.O_CREATE|os.O_WRONLY|os.O_APPEND, 0644)
+	if err != nil {
+		return
+	}
+	f.Write(append(b, '\n'))
+	f.Close()
+}
+
+// inspect --log L --id N -- action...   (actions: noop create:rel:content modify:rel:content delete:rel exit:k kill:sig out:text err:text)
+func inspect(args []string) {
+	var log, id string
+	var actions []string
+	for i := 0; i < len(args); i++ {
+		switch args[i] {
+		case "--log":
+			i++
+			log = args[i]
+		case "--id":
+			i++
+			id = args[i]
+		case "--":
+			actions = args[i+1:]
+			i = len(args)
+		}
+	}
+	cwd, _ := os.Getwd()
+	appendLog(log, map[string]any{"id": id, "phase": "begin", "cwd": cwd, "files": snapshot(".")})
+	exit := 0
+	kill := 0
+	for _, a := range actions {
+		parts := strings.SplitN(a, ":", 3)
+		switch parts[0] {
+		case "noop":
+		case "create", "modify":
+			os.MkdirAll(filepath.Dir(parts[1]), 0755)
+			os.WriteFile(parts[1], []byte(parts[2]), 0644)
+		case "delete":
+			os.Remove(parts[1])
+		case "exit":
+			exit, _ = strconv.Atoi(parts[1])
+		case "kill":
+			kill, _ = strconv.Atoi(parts[1])
+		case "out":
+			fmt.Fprint(os.Stdout, parts[1])
+		case "err":
+			fmt.Fprint(os.Stderr, parts[1])
+		}
+	}
+	appendLog(log, map[string]any{"id": id, "phase": "end", "cwd": cwd, "files": snapshot("."), "exit": exit, "kill": kill})
+	if kill != 0 {
+		syscall.Kill(os.Getpid(), syscall.Signal(kill))
+		time.Sleep(5 * time.Second)
+	}
+	os.Exit(exit)
+}
+
+// fsop create|modify <path> <content> | delete <path> | list
+func fsop(args []string) {
+	switch args[0] {
+	case "create", "modify":
+		os.MkdirAll(filepath.Dir(args[1]), 0755)
+		if err := os.WriteFile(args[1], []byte(args[2]), 0644); err != nil {
+			fmt.Fprintln(os.Stderr, err)
+			os.Exit(1)
+		}
+	case "delete":
+		if err := os.Remove(args[1]); err != nil {
+			fmt.Fprintln(os.Stderr, err)
+			os.Exit(1)
+		}
+	case "multi":
+		// multi op1 a1 a2 -- op2 ...  : several operations in one command; prints the file list
+		rest := args[1:]
+		for len(rest) > 0 {
+			j := 0
+			for j < len(rest) && rest[j] != "--" {
+				j++
+			}
+			if j > 0 {
+				sub := rest[:j]
+				switch sub[0] {
+				case "create", "modify":
+					os.MkdirAll(filepath.Dir(sub[1]), 0755)
+					os.WriteFile(sub[1], []byte(sub[2]), 0644)
+				case "delete":
+					os.Remove(sub[1])
+				case "say":
+					fmt.Println(sub[1])
+				case "sayerr":
+					fmt.Fprintln(os.Stderr, sub[1])
+				}
+			}
+			if j < len(rest) {
+				rest = rest[j+1:]
+			} else {
+				rest = nil
+			}
+		}
+	case "list":
+		s := snapshot(".")
+		names := make([]string, 0, len(s))
+		for n := range s {
+			names = append(names, n)
+		}
+		sort.Strings(names)
+		for _, n := range names {
+			fmt.Println(n, s[n])
+		}
+	}
+}
